@@ -14,6 +14,12 @@
 (*          SCK is high                                                     *)
 (*   mid    SCK rises with SDI = b, CS is deasserted while SCK is still     *)
 (*          high, then SCK falls (an abort in the middle of a bit)          *)
+(*   cut    one SCK pulse with SDI = b during which CS is released `off`    *)
+(*          device cycles after (off > 0), in the very cycle of (off = 0) or *)
+(*          before (off < 0) its rising (at = "rise") or falling (at =       *)
+(*          "fall") edge.  The bit counts iff CS was still asserted after    *)
+(*          the falling edge (at = "fall", off > 0); otherwise it is an      *)
+(*          abort in the middle of a bit, like mid.                          *)
 (*   noise  SCK pulses while the chip is not selected (traffic for others)  *)
 (*   poke   the external signal behind a read-only register changes         *)
 (*   idle   nothing happens for a while                                     *)
@@ -39,7 +45,7 @@
 (* (SDO for the next bit, write strobe, register update) is visible within  *)
 (* the >= 4 device cycles the host leaves after each falling SCK edge.      *)
 (***************************************************************************)
-EXTENDS Naturals, Sequences, Bits
+EXTENDS Integers, Sequences, Bits
 
 VARIABLES A, R,        \* configuration: address_size, register_size
           dflt,        \* configuration: default_read_value (R bits)
@@ -72,10 +78,18 @@ InitCfg(a, r, d, rg) ==
     /\ obs = [ws |-> Zeros(Len(rg))]
     /\ nW = Zeros(Len(rg)) /\ nS = Zeros(Len(rg))
 
-\* Env: which events the host may issue now.
+\* A bit is clocked in by a whole SCK pulse under CS: CS still asserted after the falling edge.
+Clocked(e) == e.e = "bit" \/ (e.e = "cut" /\ e.at = "fall" /\ e.off > 0)
+\* Events that end the transaction.
+Ends(e) == e.e \in {"desel", "mid", "cut"}
+
+\* Env: which events the host may issue now.  (Releasing CS in the very cycle of the falling edge of
+\* the last data bit is excluded: whether that transaction completed is not defined.)
 EnvFail(e) ==
     IF e.e = "sel" /\ phase # "idle" THEN "env_select_while_selected"
-    ELSE IF e.e \in {"bit", "mid", "desel"} /\ phase = "idle" THEN "env_clock_or_deselect_while_deselected"
+    ELSE IF e.e \in {"bit", "mid", "desel", "cut"} /\ phase = "idle" THEN "env_clock_or_deselect_while_deselected"
+    ELSE IF e.e = "cut" /\ e.at = "fall" /\ e.off = 0 /\ phase = "data" /\ Len(dbits) = R - 1
+         THEN "env_cs_released_on_final_falling_edge"
     ELSE IF e.e \in {"noise", "poke"} /\ phase # "idle" THEN "env_noise_or_poke_while_selected"
     ELSE IF e.e = "poke" /\ (KindOf(e.a) # "rs" \/ Len(e.v) # R) THEN "env_poke_of_non_signal_register"
     ELSE "ok"
@@ -88,7 +102,7 @@ EnvFail(e) ==
 \*   vals[i]  value of regs[i] at the end of the event ("rw" only, else <<>>)
 \*   wv[i]    values on the write_signal of regs[i] in its strobe cycles ("wo" only, else <<>>)
 Expect(e) ==
-    LET isbit    == e.e = "bit"
+    LET isbit    == Clocked(e)
         cb       == IF isbit /\ phase = "cmd" THEN Append(cbits, e.b) ELSE cbits
         cmdDone  == isbit /\ phase = "cmd" /\ Len(cb) = A + 1
         db       == IF isbit /\ phase = "data" THEN Append(dbits, e.b) ELSE dbits
@@ -111,7 +125,7 @@ Expect(e) ==
 OutcomeX(e, o, x) ==
     LET sdoOK == x.sdo = 2 \/ (o.sdo_lo = x.sdo /\ o.sdo_hi = x.sdo)
         wsErr == IF o.ws = x.ws THEN "ok"
-                 ELSE IF x.target = 0 THEN (IF phase \in {"cmd", "data"} /\ e.e \in {"desel", "mid"}
+                 ELSE IF x.target = 0 THEN (IF phase \in {"cmd", "data"} /\ Ends(e)
                                             THEN "write_strobe_on_aborted_transaction"
                                             ELSE "spurious_write_strobe")
                  ELSE IF o.ws[x.target] = 0 THEN "write_strobe_missing"
@@ -126,11 +140,11 @@ OutcomeX(e, o, x) ==
                  ELSE "ok"
     IN [err |-> err,
         regs |-> x.regs,
-        phase |-> CASE e.e = "sel" -> "cmd"
-                    [] e.e \in {"desel", "mid"} -> "idle"
-                    [] x.cmdDone -> "data"
-                    [] x.wordDone -> "done"
-                    [] OTHER -> phase,
+        phase |-> IF e.e = "sel" THEN "cmd"
+                  ELSE IF Ends(e) THEN "idle"
+                  ELSE IF x.cmdDone THEN "data"
+                  ELSE IF x.wordDone THEN "done"
+                  ELSE phase,
         cbits |-> IF e.e = "sel" THEN <<>> ELSE x.cb,
         dbits |-> IF e.e = "sel" THEN <<>> ELSE x.db,
         rdval |-> IF x.cmdDone THEN ReadValue(AddrOf(x.cb)) ELSE rdval,
@@ -157,7 +171,7 @@ Completing == ev.e = "bit" /\ phase = "done" /\ Len(dbits) = R     \* meaningful
 \* (which stores exactly the transmitted bits) or, for signal-backed registers, through its signal.
 OnlyAddressedRegisterChanges ==
     [][\A i \in 1..Len(regs) : regs'[i].v # regs[i].v =>
-          \/ /\ ev'.e = "bit" /\ phase = "data" /\ phase' = "done"
+          \/ /\ Clocked(ev') /\ phase = "data" /\ Len(dbits) = R - 1
              /\ IsWrite(cbits) /\ regs[i].a = AddrOf(cbits) /\ regs[i].k = "rw"
              /\ regs'[i].v = dbits'
           \/ ev'.e = "poke" /\ ev'.a = regs[i].a /\ regs[i].k = "rs"]_vars
@@ -167,7 +181,8 @@ StrobedOncePerWrite == nS = nW
 
 \* An aborted transaction (CS released during the command or before the last data bit) changes nothing.
 AbortChangesNothing ==
-    [][(ev'.e \in {"desel", "mid"} /\ phase \in {"cmd", "data"}) =>
+    [][(Ends(ev') /\ phase \in {"cmd", "data"}
+          /\ ~(Clocked(ev') /\ phase = "data" /\ Len(dbits) = R - 1)) =>
           (regs' = regs /\ nS' = nS /\ nW' = nW)]_vars
 
 \* Clocks after the word, clocks while deselected and idling change nothing either.
